@@ -156,7 +156,19 @@ class Interval:
             pk = self.payload_key(op)
             if pk is not None:
                 v = st.get(pk)
-                return v if v is not None else (INT_RANGE[self._key_ty[pk]],)
+                if v is not None:
+                    return v
+                # nothing known on this path: what every construction of that variant in the crate puts there
+                # (`Utf16Unit::Lead(u)` is only ever built behind `0xD800 <= u && u <= 0xDBFF`)
+                cr = ctor_payload_range(self.body.crate, self.body.local_ty(p["l"]).lstrip("&").replace("mut ", ""), p["pr"][0].get("variant"), p["pr"][1].get("name"))
+                return cr if cr is not None else (INT_RANGE[self._key_ty[pk]],)
+            # the same payload read through a longer path (`((res as Ok).0 as Some).0 as Trail).0`): the enum is the
+            # type of the place just before the last downcast
+            pr = p["pr"]
+            if len(pr) >= 4 and pr[-1]["k"] == "field" and pr[-1].get("ty") in INT_RANGE and pr[-2]["k"] == "downcast" and pr[-3]["k"] == "field" and pr[-3].get("ty"):
+                cr = ctor_payload_range(self.body.crate, str(pr[-3]["ty"]).lstrip("&").replace("mut ", ""), pr[-2].get("variant"), pr[-1].get("name"))
+                if cr is not None:
+                    return cr
         return None
 
     def val_or_pointee(self, st, op):
@@ -889,6 +901,47 @@ def _table_any_summary(crate, b, r):
 
 
 _FOR_BODY = {}
+
+
+_CTOR_RANGE = {}
+
+
+def ctor_payload_range(crate, adt, variant, field):
+    """Intervals of the integer payload `field` of `adt::variant`, as established by every construction of that
+    variant in the crate (a crate-local enum whose variants are built by aggregates only); None when the enum is not
+    local, is never constructed, or some construction's operand is not known."""
+    key = (id(crate), adt, variant, field)
+    if key in _CTOR_RANGE:
+        return _CTOR_RANGE[key]
+    _CTOR_RANGE[key] = None  # recursion guard: a payload that depends on itself is unknown
+    a = crate.adts.get(adt.split("<")[0]) or crate.adts.get(adt)
+    if not a or a.get("crate") != crate.raw.get("crate", a.get("crate")) and not a.get("local", True):
+        return None
+    if a.get("kind") != "enum":
+        return None
+    acc = ()
+    n = 0
+    for b in crate.bodies:
+        for bi, blk in enumerate(b.blocks):
+            for si, s_ in enumerate(blk["stmts"]):
+                if s_["k"] != "assign" or s_["rv"]["k"] != "aggregate":
+                    continue
+                rv = s_["rv"]
+                if rv.get("adt") != a["path"] or rv.get("variant") != variant:
+                    continue
+                fields = rv.get("fields") or [str(i) for i in range(len(rv["ops"]))]
+                if field not in fields:
+                    return None
+                n += 1
+                iv = for_body(b) or Interval(b)
+                st = iv.state_after(bi, si - 1) if si > 0 else dict(iv.entry.get(bi, {}))
+                v = iv.val(st, rv["ops"][fields.index(field)]) if st is not None else None
+                if v is None:
+                    return None
+                acc = union(acc, v) if acc != () else v
+    res = acc if n and acc != () else None
+    _CTOR_RANGE[key] = res
+    return res
 
 
 def for_body(b, _depth=0):
